@@ -396,6 +396,10 @@ def check_trace(tr, drv, max_frames=80, mask=None, detail=False, inv_mask=None):
         o = parse(v[1])
         return o if isinstance(o, list) else None
     res['inv_frames'] = 0
+    # C03: the stage-2 journey invariant is about the state AND the cumulative record history AND the arrival nodes: all three real
+    hist, spawned = [], []
+    want_jrn = inv_mask is not None and 'jrn2' in inv_mask
+    res['jrn_frames'] = 0
     b0 = invs(enc_state(prev, cfg, nxt, now if isinstance(now, int) else 0, cyc))
     if b0 is None or any(x != 1 for x in b0):
         bad = [INV2_NAMES[i] for i, x in enumerate(b0 or []) if x != 1]
@@ -457,6 +461,16 @@ def check_trace(tr, drv, max_frames=80, mask=None, detail=False, inv_mask=None):
                 res['inv_other'] = res.get('inv_other', 0) + 1
             else:
                 res['inv_frames'] += 1
+            if want_jrn and k < 80:
+                hist.extend(norm([enc_rec(e) for e in f['cev'] if e[0] == 'Record']))
+                spawned.extend([[e[2], e[1]] for e in f['cev'] if e[0] == 'Spawn'])
+                v = drv.ask('m40', sx.dump([ecfg, enc_state(prev, cfg, nxt, now, cyc), hist, spawned]))
+                jv = v[1].strip() if v[0] == 'M' else str(v)
+                if jv == '1':
+                    res['jrn_frames'] += 1
+                elif jv != '2':         # 2 = the configuration is outside Journey2.scope2: nothing is claimed
+                    res['mismatch'] = {'frame': k + 1, 'what': 'the stage-2 journey invariant (Journey2.jrn2_b) does not hold on the real snapshot with the real record history', 'got': jv, 'label': f['label']}
+                    return res
     # the calls that returned after the last compared event (normally: the end of the run)
     if res['mismatch'] is None and res['frames'] == len(tr.frames):
         while ci < len(ends) and ends[ci]['frames'] == len(tr.frames):
